@@ -392,8 +392,16 @@ func (w *World) nonNil(fn *ssa.Function, at ssa.Instruction, v ssa.Value, depth 
 			}
 		}
 		return true
+	case *ssa.Extract:
+		// one result of an in-scope helper (e.g. `return failed(err)` handing back zero values and the error)
+		if c, ok := x.Tuple.(*ssa.Call); ok && w.helperResultNonNil(fn, at, c, x.Index, depth) {
+			return true
+		}
 	case *ssa.Call:
 		cc := x.Common()
+		if w.helperResultNonNil(fn, at, x, 0, depth) {
+			return true
+		}
 		// sdkerrors.Wrap / Wrapf are package-level function variables (aliases of errorsmod.Wrap)
 		if u, ok := cc.Value.(*ssa.UnOp); ok && u.Op == token.MUL {
 			if g, ok := u.X.(*ssa.Global); ok && g.Pkg != nil && errCtorPkgs[g.Pkg.Pkg.Path()] && (g.Name() == "Wrap" || g.Name() == "Wrapf") {
@@ -417,6 +425,51 @@ func (w *World) nonNil(fn *ssa.Function, at ssa.Instruction, v ssa.Value, depth 
 		}
 	}
 	return testedNonNil(fn, at, v)
+}
+
+// helperResultNonNil: result idx of the call is certainly non-nil because every return of the (single, in-scope)
+// callee yields there a value that is non-nil inside the callee, or one of its parameters whose argument is
+// certainly non-nil at the call site. Closures are looked into too (a local `failed := func(err error) (...)`).
+func (w *World) helperResultNonNil(fn *ssa.Function, at ssa.Instruction, call *ssa.Call, idx int, depth int) bool {
+	cc := call.Common()
+	var g *ssa.Function
+	if sc := cc.StaticCallee(); sc != nil {
+		g = sc
+	} else if mc, ok := cc.Value.(*ssa.MakeClosure); ok {
+		g, _ = mc.Fn.(*ssa.Function)
+	}
+	if g == nil || len(g.Blocks) == 0 || !w.InSet(g) && g.Parent() == nil {
+		return false
+	}
+	if pk := FnPkg(g); pk != nil && errCtorPkgs[pk.Path()] {
+		return false
+	}
+	rets := Returns(g)
+	if len(rets) == 0 {
+		return false
+	}
+	for _, r := range rets {
+		if idx >= len(r.Results) {
+			return false
+		}
+		rv := r.Results[idx]
+		if p, ok := rv.(*ssa.Parameter); ok {
+			pi := -1
+			for i, q := range g.Params {
+				if q == p {
+					pi = i
+				}
+			}
+			if pi < 0 || pi >= len(cc.Args) || !w.nonNil(fn, call, cc.Args[pi], depth+1) {
+				return false
+			}
+			continue
+		}
+		if !w.nonNil(g, r, rv, depth+1) {
+			return false
+		}
+	}
+	return true
 }
 
 // testedNonNil: `at` is reachable only through an edge on which v != nil holds.
